@@ -53,7 +53,7 @@ def cmpHead (a b : Term) : Option Ordering :=
     | none, some _ => some .gt                -- :1026
     | none, none =>
       match a, b with
-      | .str s, .str t => some (compare s t)  -- :1031
+      | .str s, .str t => some (compare (stringText s) (stringText t))  -- :1031 (C15_atom_quotes: without the quotes)
       | .str _, _ => some .lt                 -- :1033
       | _, .str _ => some .gt                 -- :1035
       | _, _ => none
@@ -111,7 +111,7 @@ def cmpHeadOrig (a b : Term) : Option Ordering :=
     | none, some _ => some .gt
     | none, none =>
       match a, b with
-      | .str s, .str t => some (compare s t)
+      | .str s, .str t => some (compare ("\"" ++ s ++ "\"") ("\"" ++ t ++ "\""))   -- `compare(str(a), str(b))`
       | .str _, _ => some .lt
       | _, .str _ => some .gt
       | _, _ => none
@@ -240,9 +240,11 @@ def unq (t : Term) : Term := t.mapFunctor unquoteName
 def stdCompare (a b : Term) : Ordering := stdCore (unq a) (unq b)
 
 mutual
-/-- Terms on which the code's number test agrees with the standard's: no sub-term of the legacy shape `'-'(Number)`. -/
+/-- Terms on which the code's tests agree with the standard's: no sub-term of the legacy shape `'-'(Number)`, and no
+    string whose text begins or ends with a double quote (`strip('"')` would eat it). -/
 def plain : Term → Bool
   | .app f as => (numKey (.app f as)).isNone && plainList as
+  | .str s => decide (stringText s = s)
   | _ => true
 def plainList : List Term → Bool
   | [] => true
